@@ -279,3 +279,6 @@ def run(ctx: Ctx, rep: Report, tier: str):
     _alias10(rep, ["C05.V2", "C05.V1", "C05.V3", "C05.V4", "C05.V5", "C05.V6", "C05.V7", "C05.V8", "C05.V9"], "C10.T14", "a transient fault while the application's resolver reads a handle aborts the step "
              "(CloudTemporaryError is re-raised before the catch-all of __safe_call_resolver, C05.V2): it is reported and retried, not taken for a broken resolver", 1,
              lambda: _C05(ctx, rep).run(), keep=lambda i: i.rule == "C05.V2" and i.key == "resolver|temporary-propagates")
+    from rules.decisions import decision_table, table_sites
+    rep.rule("C10.T15", "decision table of the step frame: every action site of _sync_one_entry, do and the name-error / corrupt handlers (punt, backoff, notification, commit, per handler type) is reached under exactly the recorded path condition", table_sites("C10"))
+    section(rep, lambda: decision_table(ctx, rep, "C10.T15", "C10"))
